@@ -103,6 +103,12 @@ CHECKS = {
         'harnesses': [
             {'name': 'Harness_C19_session', 'pkg': 'samlidp', 'replay': 'direct', 'must_reach': ['returned', 'no-session', 'session-by-password', 'session-by-cookie'],
              'validate_labels': ['session-by-password', 'session-by-cookie', 'no-session'], 'quick': {'params': {'store.faults': 1}}, 'thorough': {'params': {'store.faults': 1}}},
+            {'name': 'Harness_C19_sso', 'pkg': 'samlidp', 'replay': 'direct', 'must_reach': ['served', 'response-emitted', 'no-response'],
+             'validate_labels': ['response-emitted', 'no-response'], 'opts': {'no_sign_err': True}, 'quick': {'params': {'store.faults': 1}}, 'thorough': {'params': {'store.faults': 1}}},
+            {'name': 'Harness_C19_shortcut', 'pkg': 'samlidp', 'replay': 'direct', 'must_reach': ['served', 'response-emitted', 'no-response'],
+             'validate_labels': ['response-emitted', 'no-response'], 'opts': {'no_sign_err': True}, 'quick': {'params': {'store.faults': 1}}, 'thorough': {'params': {'store.faults': 1}}},
+            {'name': 'Harness_C19_registry', 'pkg': 'samlidp', 'replay': 'direct', 'must_reach': ['put', 'delete', 'restarted'],
+             'validate_labels': ['restarted'], 'quick': {'params': {'store.faults': 1}}, 'thorough': {'params': {'store.faults': 1}}},
         ],
     },
     'C18': {
